@@ -78,6 +78,9 @@ func main() {
 			runHistory(out, in, rng.Fork(uint64(i)), histCfg{ops: l, label: fmt.Sprintf("c09-history-%d", i)})
 		}
 	}
+	if mode == "c09" || mode == "all" {
+		runLong(out, in, rng.Fork(9000000))
+	}
 	if mode == "c09" || mode == "conc" || mode == "all" {
 		n := vh.EnvInt("VERIF_STORE_CONC", 25)
 		if thorough {
